@@ -7,6 +7,7 @@ import Pyunicorn.Lemmas.SurrogatesKernel
 import Pyunicorn.Lemmas.SurrogatesKernelW
 import Pyunicorn.Lemmas.SurrogatesObject
 import Pyunicorn.Lemmas.SurrogatesTies
+import Pyunicorn.Lemmas.SurrogatesArgsort
 import Pyunicorn.Lemmas.SurrogatesMethod
 import Pyunicorn.Lemmas.SurrogatesCoupling
 import Pyunicorn.Lemmas.SurrogatesCouplingStep
@@ -819,6 +820,109 @@ theorem remap_unique_without_ties (row s : List Rat) (idx₁ idx₂ : List Nat)
     (hlen : s.length = row.length) (hs : s.Nodup) (h₁ : RankOf s idx₁) (h₂ : RankOf s idx₂) :
     gather (sortR row) idx₁ = gather (sortR row) idx₂ :=
   remap_unique_of_nodup' row s idx₁ idx₂ hlen hs h₁ h₂
+
+/-! ### Round 5f: `argsort().argsort()` is a rank array — proved, not assumed
+
+Round 4's theorems above take `RankOf s idx` as a hypothesis about what numpy returned.  The
+hypothesis is now reduced to what `numpy.argsort` promises on its face, for each of the two calls:
+the result is *an* argsort of its argument (`IsArgsort` / `IsArgsortNat`: a permutation of the index
+range along which the argument is non-decreasing; ties in any order).  The harness has the driver
+decide exactly these two facts on numpy's own two index arrays in every case with ties; that they
+make the second array a `RankOf` is `argsort_argsort_is_rank`. -/
+
+/-- **`x.argsort().argsort()` is a rank array of `x` whatever order `argsort` gives to equal
+values**: for ANY argsort `p` of `x` and ANY argsort `q` of `p`, `q` is a `RankOf x`. -/
+theorem argsort_argsort_is_rank (x : List Rat) (p q : List Nat)
+    (hp : IsArgsort x p) (hq : IsArgsortNat p q) : RankOf x q :=
+  rankOf_of_argsort_argsort x p q hp hq
+
+/-- the second argsort has no freedom: the first argsort is a permutation (distinct entries), its
+argsort is unique, and it is the inverse permutation — `p[q[a]] = a` -/
+theorem second_argsort_is_the_inverse (x : List Rat) (p q : List Nat)
+    (hp : IsArgsort x p) (hq : IsArgsortNat p q) (a : Nat) (ha : a < x.length) :
+    ∃ k, q[a]? = some k ∧ p[k]? = some a := by
+  have hpl : p.length = x.length := by simpa using hp.1.length_eq
+  obtain ⟨k, h1, _, h2⟩ := isArgsortNat_getElem p q (by rw [hpl]; exact hp.1) hq a (by omega)
+  exact ⟨k, h1, h2⟩
+
+/-- … so two runs of the second `argsort` on the same first argsort agree -/
+theorem second_argsort_unique (x : List Rat) (p q₁ q₂ : List Nat) (hp : IsArgsort x p)
+    (h₁ : IsArgsortNat p q₁) (h₂ : IsArgsortNat p q₂) : q₁ = q₂ := by
+  have hpl : p.length = x.length := by simpa using hp.1.length_eq
+  exact isArgsortNat_unique p q₁ q₂ (by rw [hpl]; exact hp.1) h₁ h₂
+
+/-- the model's stable `argsort` / `argsortNat` are argsorts in this sense (so
+`model_ranks_are_a_rank_array` is an instance of `argsort_argsort_is_rank`) -/
+theorem model_argsorts_are_argsorts (s : List Rat) :
+    IsArgsort s (argsort s) ∧ IsArgsortNat (argsort s) (ranks s) :=
+  ⟨argsort_isArgsort s, argsortNat_isArgsortNat (argsort s)⟩
+
+/-- `remap_pairs_are_sorted_pairs` with the checkable hypothesis: numpy's two argsorts are argsorts -/
+theorem remap_pairs_are_sorted_pairs_of_argsorts (row s : List Rat) (p q : List Nat)
+    (hlen : s.length = row.length) (hp : IsArgsort s p) (hq : IsArgsortNat p q) :
+    ∃ out, gather (sortR row) q = some out ∧ out.Perm row ∧
+      (s.zip out).Perm ((sortR s).zip (sortR row)) :=
+  gather_sorted_of_argsorts row s p q hlen hp hq
+
+/-- `remap_tie_order_independent` with the checkable hypothesis: two different first argsorts (two
+tie orders) give the same multiset of (ranked value, output value) pairs -/
+theorem remap_tie_order_independent_of_argsorts (row s : List Rat) (p₁ q₁ p₂ q₂ : List Nat)
+    (hlen : s.length = row.length) (hp₁ : IsArgsort s p₁) (hq₁ : IsArgsortNat p₁ q₁)
+    (hp₂ : IsArgsort s p₂) (hq₂ : IsArgsortNat p₂ q₂) :
+    ∃ out₁ out₂, gather (sortR row) q₁ = some out₁ ∧ gather (sortR row) q₂ = some out₂ ∧
+      (s.zip out₁).Perm (s.zip out₂) :=
+  remap_tie_order_independent' row s q₁ q₂ hlen
+    (rankOf_of_argsort_argsort s p₁ q₁ hp₁ hq₁)
+    (rankOf_of_argsort_argsort s p₂ q₂ hp₂ hq₂)
+
+/-- `remap_equals_model_up_to_tie_order` with the checkable hypothesis -/
+theorem remap_equals_model_up_to_tie_order_of_argsorts (row s : List Rat) (p q : List Nat)
+    (hlen : s.length = row.length) (hp : IsArgsort s p) (hq : IsArgsortNat p q) :
+    ∃ out out', gather (sortR row) q = some out ∧ remap row s = some out' ∧
+      (s.zip out).Perm (s.zip out') :=
+  remap_tie_order_independent_model row s q hlen (rankOf_of_argsort_argsort s p q hp hq)
+
+/-- `remap_equals_model_without_ties` with the checkable hypothesis -/
+theorem remap_equals_model_without_ties_of_argsorts (row s : List Rat) (p q : List Nat)
+    (hlen : s.length = row.length) (hs : s.Nodup) (hp : IsArgsort s p) (hq : IsArgsortNat p q) :
+    gather (sortR row) q = remap row s :=
+  remap_unique_of_nodup row s q hlen hs (rankOf_of_argsort_argsort s p q hp hq)
+
+/-- `remap_comonotone` with the checkable hypothesis -/
+theorem remap_comonotone_of_argsorts (row s : List Rat) (p q : List Nat)
+    (hp : IsArgsort s p) (hq : IsArgsortNat p q) (out : List Rat)
+    (ho : gather (sortR row) q = some out)
+    (a b : Nat) (x y u v : Rat) (hx : s[a]? = some x) (hy : s[b]? = some y)
+    (hu : out[a]? = some u) (hv : out[b]? = some v) (hxy : x < y) : u ≤ v :=
+  remap_comonotone' row s q (rankOf_of_argsort_argsort s p q hp hq) out ho a b x y u v
+    hx hy hu hv hxy
+
+/-- `remap_unique_without_ties` with the checkable hypothesis -/
+theorem remap_unique_without_ties_of_argsorts (row s : List Rat) (p₁ q₁ p₂ q₂ : List Nat)
+    (hlen : s.length = row.length) (hs : s.Nodup) (hp₁ : IsArgsort s p₁)
+    (hq₁ : IsArgsortNat p₁ q₁) (hp₂ : IsArgsort s p₂) (hq₂ : IsArgsortNat p₂ q₂) :
+    gather (sortR row) q₁ = gather (sortR row) q₂ :=
+  remap_unique_of_nodup' row s q₁ q₂ hlen hs
+    (rankOf_of_argsort_argsort s p₁ q₁ hp₁ hq₁)
+    (rankOf_of_argsort_argsort s p₂ q₂ hp₂ hq₂)
+
+/-- non-vacuity: both tie orders of `[1, 1, 0]` are argsorts (the stable one `[2, 0, 1]` and the
+unstable one `[2, 1, 0]`), each has exactly its inverse as argsort, and the two resulting rank
+arrays are the two `RankOf`s of round 4's example -/
+example : IsArgsort [1, 1, 0] [2, 0, 1] ∧ IsArgsortNat [2, 0, 1] [1, 2, 0] ∧
+    IsArgsort [1, 1, 0] [2, 1, 0] ∧ IsArgsortNat [2, 1, 0] [2, 1, 0] := by decide
+/-- … the hypotheses are not vacuous and not trivially true: an index row that reads the larger
+value first is not an argsort, a non-permutation is not, and a wrong inverse is not -/
+example : ¬ IsArgsort [1, 1, 0] [0, 1, 2] ∧ ¬ IsArgsort [1, 1, 0] [2, 2, 0] ∧
+    ¬ IsArgsortNat [2, 0, 1] [2, 1, 0] := by decide
+/-- … and the conclusion is used: the theorem applied to the unstable tie order -/
+example : RankOf [1, 1, 0] [2, 1, 0] :=
+  argsort_argsort_is_rank [1, 1, 0] [2, 1, 0] [2, 1, 0] (by decide) (by decide)
+/-- the remapping under the unstable tie order: a permutation of the row with the sorted pairs -/
+example : ∃ out, gather (sortR [5, 3, 4]) [2, 1, 0] = some out ∧ out.Perm [5, 3, 4] ∧
+    (([1, 1, 0] : List Rat).zip out).Perm ((sortR [1, 1, 0]).zip (sortR [5, 3, 4])) :=
+  remap_pairs_are_sorted_pairs_of_argsorts [5, 3, 4] [1, 1, 0] [2, 1, 0] [2, 1, 0] rfl
+    (by decide) (by decide)
 
 /-! ### `correlated_noise_surrogates`, statement by statement
 
